@@ -451,7 +451,9 @@ func (g G) Statement(kind string, depth int) []*Node {
 		}
 		return one(n)
 	case "switch":
-		ctl := pick(c, "switch.control", Ident("req.http.A"), Call("std.tolower", Ident("req.http.A")), Str("lit"))
+		ctl := pick(c, "switch.control", Ident("req.http.A"), Call("std.tolower", Ident("req.http.A")), Str("lit"),
+			// an escaped percent sign in a literal of the control expression, and a concatenation as argument
+			Call("std.tolower", Concat(Ident("req.http.A"), false, StrSrc("x%2541", "x%41"))), StrSrc("l%2541", "l%41"))
 		ncase := 1 + c.Choose(3, "switch.ncases")
 		var cases []*Node
 		for i := 0; i < ncase; i++ {
